@@ -33,6 +33,9 @@ type Opts struct {
 	NoBlend bool // no PolyMin/PolyMax blends
 	Bezier  bool // allow Bezier-outlined leaves (their construction consumes the library-private random source)
 	NoText  bool // no text leaves
+	// RandLeaf: every 2D leaf is one of those whose construction consumes the library-private random
+	// source (Bezier outline, and text unless NoText); needs Special and Grammar Full
+	RandLeaf bool
 	// SolidUnion2: operands of a 2D union are drawn without difference / intersection / cut, so that no
 	// operand can be empty (excludes the known finding Union2D:pruned-value-overestimates by construction)
 	SolidUnion2 bool
@@ -155,6 +158,9 @@ func (x *gen) leaf2() *Node {
 	if x.o.Special && x.o.Grammar == Full {
 		kinds = append(kinds, "special")
 	}
+	if x.o.RandLeaf && x.o.Special && x.o.Grammar == Full {
+		kinds = []string{"special"}
+	}
 	switch x.pick("leaf2", kinds) {
 	case "circle":
 		return &Node{Op: "circle", P: []float64{x.length("r", 0.05, 1)}}
@@ -202,6 +208,12 @@ func (x *gen) special2() *Node {
 	}
 	if x.o.Bezier {
 		kinds = append(kinds, "bezier", "bezier")
+	}
+	if x.o.RandLeaf {
+		kinds = []string{"bezier"}
+		if !x.o.NoText {
+			kinds = append(kinds, "text")
+		}
 	}
 	switch x.pick("special", kinds) {
 	case "bezier":
